@@ -1,0 +1,20 @@
+//go:build verif
+
+package proxy
+
+// Verification export hooks for property C42 (futures) — /verif/harness/cmd/c42.
+// pkg/internal/future cannot be imported from the harness module; these are forwarders only.
+// Compiled only with `-tags verif`.
+
+import "go.minekube.com/gate/pkg/internal/future"
+
+// VerifC42Future names future.Future outside the internal tree.
+type VerifC42Future[T any] = future.Future[T]
+
+// VerifC42New = future.New.
+func VerifC42New[T any]() *future.Future[T] { return future.New[T]() }
+
+// VerifC42ThenCompose = future.ThenCompose.
+func VerifC42ThenCompose[T any, U any](f *future.Future[T], callback func(T) *future.Future[U]) *future.Future[U] {
+	return future.ThenCompose(f, callback)
+}
